@@ -73,9 +73,10 @@ WT = {f"WaitTimer(t={t})": t for t in (1, 2, 3, 5, 8)}
 def configs(tier):
     c = [(n,) for n, (t, kw) in VARIANTS.items() if t == "quick" or tier == "thorough"]
     c += [(n,) for n in WT]
-    from checks import c11_axi, c11_soc
+    from checks import c11_axi, c11_soc, c11_burst
     c += c11_axi.configs(tier)
     c += c11_soc.configs(tier)
+    c += c11_burst.configs(tier)
     return c
 
 
@@ -95,6 +96,9 @@ def run_config(cfg, seed, tier):
     if name.startswith("soc."):
         from checks import c11_soc
         return c11_soc.run_config(cfg, seed, tier)
+    if "write bursts" in name:
+        from checks import c11_burst
+        return c11_burst.run_config(cfg, seed, tier)
     from checks import c11_axi
     return c11_axi.run_config(cfg, seed, tier)
 
@@ -109,5 +113,8 @@ def replay(rec):
     if name.startswith("soc."):
         from checks import c11_soc
         return c11_soc.replay(rec)
+    if "write bursts" in name:
+        from checks import c11_burst
+        return c11_burst.replay(rec)
     from checks import c11_axi
     return c11_axi.replay(rec)
